@@ -68,7 +68,7 @@ var delayCfgsInitGtMax = []string{"5000:1000:2:1", "1000000000:0:3:2"}
 func mwPool() []string {
 	p := []string{
 		"T", "T0", "C", "R", "A", "H", "B",
-		"I:" + hx("boom"), "I:" + hx("ctx: boom") + "/" + hx("other"), "I:",
+		"I:" + hx("boom"), "I:" + hx("ctx: boom") + "/" + hx("other"), "I:", "I:-/" + hx("boom"),
 		"D:" + delayCfgs[0], "D:" + delayCfgs[1], "D:" + delayCfgs[3],
 	}
 	return p
@@ -225,7 +225,7 @@ func generate(a wh.Args, o *wh.Out) []string {
 	// 3. ordered triples: all kinds in every order with Retry at each position, configurations drawn
 	nTriples := 30000
 	if a.Thorough() {
-		nTriples = 200000
+		nTriples = 400000
 	}
 	kinds := map[string][]string{}
 	var kindList []string
@@ -316,7 +316,7 @@ func generate(a wh.Args, o *wh.Out) []string {
 	// random configurations (exactly representable multipliers, exact float range)
 	nRand := 1500
 	if a.Thorough() {
-		nRand = 20000
+		nRand = 100000
 	}
 	mults := [][2]int{{1, 1}, {3, 2}, {2, 1}, {5, 2}, {3, 1}, {5, 4}, {7, 4}, {9, 2}}
 	for i := 0; i < nRand; i++ {
